@@ -72,6 +72,9 @@ func (o Op) text() string {
 		return fmt.Sprintf("(swap! %s (fn (x) (do %s(+ x (h-deref %d)))))", a, g, o.Other)
 	case "resetother":
 		return fmt.Sprintf("(swap! %s (fn (x) (do %s(h-reset! %d %d) (+ x 1))))", a, g, o.Other, o.Arg)
+	case "swapother":
+		// the update function swaps another atom (it may run more than once: each run swaps)
+		return fmt.Sprintf("(swap! %s (fn (x) (do %s(h-swap-add! %d %d) (+ x 1))))", a, g, o.Other, o.Arg)
 	case "resetseq":
 		return fmt.Sprintf("(reset! %s %s)", a, seqValues[o.Arg%len(seqValues)].src)
 	case "conj":
@@ -101,12 +104,12 @@ var seqValues = []struct {
 
 func genOp(t *rapid.T, atoms int, allowGate bool) Op {
 	o := Op{Gate: -1, Atom: gen.Uniform(t, "atom", atoms), Arg: 1 + gen.Uniform(t, "arg", 5)}
-	kinds := []string{"deref", "deref", "reset", "add", "add", "add", "fail", "addself", "addother", "resetother", "gensym", "memo", "resetseq", "resetseq", "conj"}
+	kinds := []string{"deref", "deref", "reset", "add", "add", "add", "fail", "addself", "addother", "resetother", "swapother", "gensym", "memo", "resetseq", "resetseq", "conj"}
 	o.Kind = kinds[gen.Uniform(t, "kind", len(kinds))]
-	if atoms < 2 && (o.Kind == "addother" || o.Kind == "resetother") {
+	if atoms < 2 && (o.Kind == "addother" || o.Kind == "resetother" || o.Kind == "swapother") {
 		o.Kind = "add"
 	}
-	if o.Kind == "addother" || o.Kind == "resetother" {
+	if o.Kind == "addother" || o.Kind == "resetother" || o.Kind == "swapother" {
 		o.Other = (o.Atom + 1 + gen.Uniform(t, "other", atoms-1)) % atoms
 	}
 	if o.Kind == "reset" {
@@ -116,7 +119,7 @@ func genOp(t *rapid.T, atoms int, allowGate bool) Op {
 		o.Arg = gen.Uniform(t, "seqv", len(seqValues))
 	}
 	switch o.Kind {
-	case "add", "fail", "addself", "addother", "resetother":
+	case "add", "fail", "addself", "addother", "resetother", "swapother":
 		if allowGate && gen.Uniform(t, "gated", 2) == 0 {
 			o.Gate = gen.Uniform(t, "gate", nGates)
 		}
@@ -158,6 +161,20 @@ func genCase(t *rapid.T) Case {
 			c.Sched = append(c.Sched, Ev{Kind: "cancel", Thread: 0})
 		}
 		c.Sched = append(c.Sched, Ev{Kind: "release", Gate: 0}, Ev{Kind: "start", Thread: 1})
+		return c
+	}
+	if gen.Uniform(t, "pattern3", 10) == 0 {
+		// crosswise: two (or three, in a ring) evaluations are inside their update functions at the same time and
+		// each then swaps the atom the next one is swapping
+		n := 2 + gen.Uniform(t, "ring", 2)
+		c.Atoms = 3
+		for i := 0; i < n; i++ {
+			c.Threads = append(c.Threads, []Op{{Kind: "swapother", Atom: i, Other: (i + 1) % n, Arg: 1 + i, Gate: i}, {Kind: "deref", Atom: i, Gate: -1}})
+			c.Sched = append(c.Sched, Ev{Kind: "start", Thread: i}, Ev{Kind: "await", Gate: i})
+		}
+		for i := 0; i < n; i++ {
+			c.Sched = append(c.Sched, Ev{Kind: "release", Gate: i})
+		}
 		return c
 	}
 	nt := 2 + gen.Uniform(t, "threads", 5)
@@ -230,6 +247,7 @@ type tlocal struct {
 	client      int
 	lastRead    int
 	lastReadInt bool
+	nestedErr   bool // the (last) nested swap of another atom failed
 	cancel      context.CancelFunc
 }
 
@@ -297,6 +315,25 @@ func newRunner(c Case, gatesOpen bool) *runner {
 	derefFn, _ := box.Lookup(r.env, "deref")
 	resetFn, _ := box.Lookup(r.env, "reset!")
 	atomOf := func(i int) types.MalType { v, _ := box.Lookup(r.env, fmt.Sprintf("a%d", i)); return v }
+	swapFn, _ := box.Lookup(r.env, "swap!")
+	plusFn, _ := box.Lookup(r.env, "+")
+	call.CallOverrideFN(r.env, "h-swap-add!", func(ctx context.Context, i, k int) (types.MalType, error) {
+		tl, _ := ctx.Value(tlKey{}).(*tlocal)
+		t0 := time.Now().UnixNano()
+		v, err := swapFn.(types.Func).Fn(ctx, []types.MalType{atomOf(i), plusFn, k})
+		t1 := time.Now().UnixNano()
+		cl := 99
+		if tl != nil {
+			cl = tl.client
+			tl.nestedErr = err != nil
+		}
+		out := opOut{Err: err != nil}
+		if err == nil {
+			out.Val = val.Canon(val.From(v))
+		}
+		r.record(cl, opIn{Kind: "add", Atom: i, Arg: k}, out, t0, t1)
+		return v, err
+	})
 	call.CallOverrideFN(r.env, "h-deref", func(ctx context.Context, i int) (types.MalType, error) {
 		tl, _ := ctx.Value(tlKey{}).(*tlocal)
 		t0 := time.Now().UnixNano()
@@ -405,6 +442,13 @@ func (r *runner) exec(ctx context.Context, client int, o Op) string {
 		}
 	case "resetother":
 		r.record(client, opIn{Kind: "add", Atom: o.Atom, Arg: 1}, out, t0, t1)
+	case "swapother":
+		if tl.nestedErr {
+			// the other atom held a sequence: the nested swap failed and with it the (last) application
+			r.record(client, opIn{Kind: "fail", Atom: o.Atom}, out, t0, t1)
+		} else {
+			r.record(client, opIn{Kind: "add", Atom: o.Atom, Arg: 1}, out, t0, t1)
+		}
 	}
 	return ""
 }
